@@ -1,6 +1,7 @@
 SPECIFICATION Spec
 CONSTANTS
   Keys = {1, 2}
+  MapKeys = {1, 2}
   Vals = {1, 2}
   MaxDepth = 3
   Bug = "IterAllVisible"
